@@ -55,6 +55,10 @@ def canonicalize_url(
         fragment = None
 
     # Path normalization
+    # NOTE: unquoting comes first because dot segments can be spelled with
+    # escapes (%2E), while an escaped slash is never unquoted
+    path = safely_unquote_path(path)
+
     if path:
         # NOTE: a trailing slash (or a trailing dot segment, which resolves to
         # one) is meaningful and must survive the normalization
@@ -85,8 +89,6 @@ def canonicalize_url(
 
         if quoted:
             password = safely_quote(password)
-
-    path = safely_unquote_path(path)
 
     if quoted:
         path = safely_quote(path)
